@@ -35,7 +35,7 @@ SKIP = set(POSE) | {"subtomo_id", "geom2", "geom5"}
 
 def strategy(tier):
     return st.fixed_dictionaries({
-        "table": gen.table(1, 10, bulk_max=100),
+        "table": gen.table(1, 10, bulk_max=100, index_kinds=("default", "default", "reversed", "offset", "strided", "rotated", "repeated")),
         "n": st.one_of(st.integers(1, 64), st.integers(1, 14), st.sampled_from([7, 11, 13, 14, 17, 49, 64])),
         "spelling": st.sampled_from(["int", "float", "C", "c"]),
         "s": offset,
